@@ -1,6 +1,7 @@
 package sim
 
 import (
+	"math"
 	"encoding/hex"
 	"fmt"
 	"math/big"
@@ -44,6 +45,7 @@ type Profile struct {
 	Whale          bool // one account holds ~2^90 tokens and stakes amounts whose power does not fit an int64
 	RichGenesis       bool // genesis validators in jail / unstaking (with signing infos and queue entries), as in an exported state
 	ExportedGenesis   bool // ... and the pos genesis is marked "exported" with previous-state powers
+	HugeFeeMultipliers bool // governance may set a per-message fee multiplier whose product with the base fee overflows int64
 	ForeignKeyAccount bool // genesis holds an account whose recorded public key belongs to somebody else's address
 	SubSecond      bool // block times carry nanoseconds (Tendermint's do); jail expiries, maturities and evidence ages are hit to the nanosecond
 	MinStakeRaises bool // governance may raise pos/StakeMinimum in mid-history
@@ -279,14 +281,26 @@ func ParamsOf(v *View) CurParams {
 	return p
 }
 
-// RequiredFee computes baseFee(msgType) x multiplier from the parameter snapshot (harness-side).
+// RequiredFee computes baseFee(msgType) x multiplier from the parameter snapshot (harness-side); a product beyond
+// int64 is reported as MaxInt64 (nobody can pay it; RequiredFeeBig is exact).
 func (p CurParams) RequiredFee(msgType string) int64 {
+	b := p.RequiredFeeBig(msgType)
+	if !b.IsInt64() {
+		return math.MaxInt64
+	}
+	return b.Int64()
+}
+
+// RequiredFeeBig is the exact product.
+func (p CurParams) RequiredFeeBig(msgType string) *big.Int {
+	m := p.Multiplier.Default
 	for _, fm := range p.Multiplier.FeeMultis {
 		if fm.Key == msgType {
-			return BaseFee(msgType) * fm.Multiplier
+			m = fm.Multiplier
+			break
 		}
 	}
-	return BaseFee(msgType) * p.Multiplier.Default
+	return new(big.Int).Mul(big.NewInt(BaseFee(msgType)), big.NewInt(m))
 }
 
 // ---- block construction -------------------------------------------------------------------------
@@ -488,6 +502,9 @@ func (w *World) extActions() (begin, end []ExtAction) {
 			ad = ModuleAddress([]string{"dao", "pos", "fee_collector", "staked_tokens_pool"}[w.R.Intn(4)])
 		default:
 			ad = w.All[w.R.Intn(len(w.All))].Addr
+		}
+		if w.R.Chance(4) {
+			ad = []byte{} // a downstream module awarding "nobody" (the zero-length address)
 		}
 		amt := w.R.PickI64(0, 1, 1000, 999999, 1000000, 123456789)
 		act := ExtAction{Kind: "award", Phase: "end", Addr: ad, Amount: amt}
